@@ -71,11 +71,11 @@ CHECKS = {
     technique='Coq proof over executable Gallina model + differential correspondence (extracted OCaml) + integer oracle'),
  'C10': dict(
     text='Theorems (Coq, numerals/strings of any length): decimal, 0x, 0b and signed literals read as their integer value in every position (top level, list, quote, @ offset, '
-         'slice bounds); string literals with every escape read as the intended text; the reader model is a total function; layout invariance (LayoutProofs.v): any amount of '
-         'white space after an opening bracket, between elements, before a closing bracket and around the text does not change what is read, for every expression built from '
-         'integers, strings, symbols, booleans, operators and nested lists. PARTIAL: totality of the Lark-based implementation, comments and layout of the remaining forms are '
+         'slice bounds); string literals with every escape read as the intended text; the reader model is a total function; layout invariance (LayoutProofs.v): any gap '
+         '(white space and ;-comments running to a line break) after an opening bracket, between elements, before a closing bracket and around the text does not change what is read, for every expression built from '
+         'integers, strings, symbols, booleans, operators and nested lists. PARTIAL: totality of the Lark-based implementation and layout of the remaining forms are '
          'decided by the differential check on random, mutated and re-laid-out texts.' + DIFF,
-    technique='Coq proof (scannerless reader model, literal lemmas) + differential correspondence + Python int/float oracle'),
+    technique='Coq proof (scannerless reader model, literal lemmas, layout/comment invariance by mutual induction) + differential correspondence + Python int/float oracle'),
  'C11': dict(
     text='Theorems (Coq): printed integers of any size and sign and printed strings over ASCII (with the escapes wal_str writes) read back as themselves in every position; '
          'STRUCTURAL round trip (RoundTrip.v, induction on expression size): every expression built from integers, strings, plain symbols, booleans, all 106 operators and '
